@@ -1,10 +1,11 @@
 //go:build verif
 
-// Command for developing this component in isolation (only this component is linked).
+// Command for developing the C12 package in isolation (only its two components are linked).
 package main
 
 import (
 	_ "verifharness/comp/lifo"
+	_ "verifharness/comp/linkedlist"
 	"verifharness/vmain"
 )
 
